@@ -854,6 +854,10 @@ func (s *schemaBuilder) buildFromStruct(decl *entityDecl, st *types.Struct, sche
 		if err != nil {
 			return err
 		}
+		if len(afld.Names) > 1 && name == afld.Names[0].Name {
+			// `X, Y float64`: one declaration, several fields, each encoded under its own name
+			name = fld.Name()
+		}
 		if ignore {
 			for seenTagName, seenFieldName := range seen {
 				if seenFieldName == fld.Name() {
